@@ -288,8 +288,10 @@ Fixpoint den_val (ev : str -> rres value) (v : sval) : rres value :=
        | (None, x) :: r =>
          match den_val ev x with
          | RErr e => RErr e
-         | ROk (VDict d) => go r (dict_update acc d)                                                     (* {**x} *)
-         | ROk _ => RErr EType
+         | ROk d => match dict_update_any acc d with                     (* {**x}: x a dict - or, as dict.update has it, *)
+                    | ROk acc' => go r acc'                              (* any iterable of pairs                        *)
+                    | RErr e => RErr e
+                    end
          end
        end) ents []
   end.
@@ -359,7 +361,9 @@ Fixpoint den_items (ev : str -> rres value) (items : list item) : rres (list (op
       | ISpread v =>
         rbind (den_val ev v) (fun d =>
           match d with
-          | VDict kvs => ROk (map (fun kv => (Some (fst kv), snd kv)) kvs)          (* call with double-star d *)
+          | VDict kvs =>                                                             (* call with double-star d *)
+            if forallb is_str_value (map fst kvs) then ROk (map (fun kv => (Some (fst kv), snd kv)) kvs)
+            else RErr EType                                                          (* keywords must be strings *)
           | _ => match iter_value d with
                  | Some ds => ROk (map (fun x => (None, x)) ds)                      (* call with star d *)
                  | None => RErr EValue
